@@ -9,9 +9,13 @@
 //! (a2) E2, KeyIdMemstore, to closure: digests x key ids x {insert, get, delete}.
 //!      The op alphabet, reference model and oracle of (a1)/(a2) live in `c15/seq.rs`, generic over the store
 //!      under test, because the Stronghold binary runs the same histories.
+//! (a3) full product of pairs of verification methods (DIDs x fragments x key material / representation):
+//!      `MethodDigest::new` is a function of the method, survives pack/unpack, separates methods that differ in
+//!      fragment or key, and the digests work as keys of the key-id store.
 //! (b)  E3, shuttle 0.9 DFS over every schedule of 2..4 threads racing on the stores (scheduling points = the
 //!      `verif-hooks` hook before every lock acquisition). Brute-force linearizability oracle: per-thread
-//!      results + final store content must equal those of SOME sequential interleaving of the calls.
+//!      results + final store content must equal those of SOME sequential order of the calls that keeps every
+//!      thread's program order and never puts a call before one that had RETURNED before it was invoked.
 //! (c)  Stronghold: not here (separate binary `c15s` in /verif/harness-stronghold, same `c15/seq.rs`).
 
 #[path = "c15/seq.rs"]
@@ -20,7 +24,7 @@ mod seq;
 use identity_jose::jwk::Jwk;
 use identity_jose::jws::JwsAlgorithm;
 use identity_storage::{JwkMemStore, JwkStorage, KeyId, KeyIdMemstore, KeyIdStorage, KeyType};
-use seq::{digest, key_id, key_id_index, verifies, Backend, Gk, IModel, IOp, KModel, KOp, MSG};
+use seq::{digest, key_id, key_id_index, verifies, Backend, Gk, IModel, IOp, KModel, KOp, MSpec, MSG};
 use serde::{Deserialize, Serialize};
 use std::cell::Cell;
 use std::collections::{BTreeMap, BTreeSet};
@@ -86,7 +90,7 @@ impl Backend for Mem {
 enum KRef {
   /// i-th key generated before the threads start
   Pre(u8),
-  /// j-th key generated earlier by the same thread
+  /// j-th key created (generated or inserted) earlier by the same thread
   Own(u8),
 }
 #[derive(Serialize, Deserialize, Debug, Clone, Copy, PartialEq, Eq, Hash)]
@@ -95,6 +99,8 @@ enum TOp {
   IGet(u8),
   IDel(u8),
   KGen,
+  /// insert the fully private JWK of harness key `seed` (alg EdDSA)
+  KIns(u8),
   KDel(KRef),
   KEx(KRef),
   KSign(KRef),
@@ -114,6 +120,7 @@ struct Program {
 enum Case {
   Jwk { cap: u8, hist: Vec<KOp> },
   KeyId { hist: Vec<IOp> },
+  Digest { a: MSpec, b: MSpec },
   Threads(Program),
 }
 
@@ -174,96 +181,153 @@ type Outcome = (Vec<Vec<TRes>>, Final);
 #[derive(Clone)]
 struct SeqModel {
   map: BTreeMap<u8, u8>,
-  live: BTreeSet<KName>,
-  generated: Vec<u8>,
+  /// live keys; inserted keys carry the seed of their key material
+  live: BTreeMap<KName, Option<u8>>,
+  /// keys created so far per thread
+  created: Vec<u8>,
 }
 impl SeqModel {
   fn resolve(&self, t: usize, r: KRef) -> Option<KName> {
     match r {
       KRef::Pre(i) => Some((255, i)),
-      KRef::Own(j) => (j < self.generated[t]).then_some((t as u8, j)),
+      KRef::Own(j) => (j < self.created[t]).then_some((t as u8, j)),
     }
   }
-  fn apply(&mut self, t: usize, op: TOp) -> TRes {
-    match op {
+  /// Every (result, successor state) the contract allows for `op` in this state. More than one only where the
+  /// statement leaves the answer open (inserting key material that is already stored).
+  fn apply(&self, t: usize, op: TOp) -> Vec<(TRes, SeqModel)> {
+    let mut m = self.clone();
+    let r = match op {
       TOp::IIns(d, k) => {
-        if self.map.contains_key(&d) {
+        if m.map.contains_key(&d) {
           TRes::Err
         } else {
-          self.map.insert(d, k);
+          m.map.insert(d, k);
           TRes::Ok
         }
       }
-      TOp::IGet(d) => self.map.get(&d).map(|k| TRes::Val(*k)).unwrap_or(TRes::Err),
+      TOp::IGet(d) => m.map.get(&d).map(|k| TRes::Val(*k)).unwrap_or(TRes::Err),
       TOp::IDel(d) => {
-        if self.map.remove(&d).is_some() {
+        if m.map.remove(&d).is_some() {
           TRes::Ok
         } else {
           TRes::Err
         }
       }
       TOp::KGen => {
-        self.live.insert((t as u8, self.generated[t]));
-        self.generated[t] += 1;
+        m.live.insert((t as u8, m.created[t]), None);
+        m.created[t] += 1;
         TRes::Ok
       }
-      TOp::KDel(r) => match self.resolve(t, r) {
+      TOp::KIns(seed) => {
+        let mut alts = Vec::new();
+        if m.live.values().any(|s| *s == Some(seed)) {
+          alts.push((TRes::Err, self.clone()));
+        }
+        m.live.insert((t as u8, m.created[t]), Some(seed));
+        m.created[t] += 1;
+        alts.push((TRes::Ok, m));
+        return alts;
+      }
+      TOp::KDel(r) => match m.resolve(t, r) {
         None => TRes::Skipped,
         Some(n) => {
-          if self.live.remove(&n) {
+          if m.live.remove(&n).is_some() {
             TRes::Ok
           } else {
             TRes::Err
           }
         }
       },
-      TOp::KEx(r) => match self.resolve(t, r) {
+      TOp::KEx(r) => match m.resolve(t, r) {
         None => TRes::Skipped,
-        Some(n) => TRes::Bool(self.live.contains(&n)),
+        Some(n) => TRes::Bool(m.live.contains_key(&n)),
       },
-      TOp::KSign(r) => match self.resolve(t, r) {
+      TOp::KSign(r) => match m.resolve(t, r) {
         None => TRes::Skipped,
         Some(n) => {
-          if self.live.contains(&n) {
+          if m.live.contains_key(&n) {
             TRes::SignOk
           } else {
             TRes::Err
           }
         }
       },
+    };
+    vec![(r, m)]
+  }
+  fn initial(p: &Program) -> SeqModel {
+    SeqModel {
+      map: p.pre_keyids.iter().copied().collect(),
+      live: (0..p.pre_keys).map(|i| ((255u8, i), None)).collect(),
+      created: vec![0; p.threads.len()],
     }
+  }
+  fn fin(&self) -> Final {
+    Final { keyids: self.map.clone(), keyid_count: self.map.len(), live: self.live.keys().copied().collect(), key_count: self.live.len() }
   }
 }
 
-/// Every outcome some sequential interleaving of the thread programs can produce.
+/// Every outcome some sequential interleaving of the thread programs can produce (program order only).
 fn linearizations(p: &Program) -> BTreeSet<Outcome> {
   fn go(p: &Program, m: &SeqModel, pos: &mut Vec<usize>, res: &mut Vec<Vec<TRes>>, out: &mut BTreeSet<Outcome>) {
     let mut any = false;
     for t in 0..p.threads.len() {
       if pos[t] < p.threads[t].len() {
         any = true;
-        let mut m2 = m.clone();
-        let r = m2.apply(t, p.threads[t][pos[t]]);
-        pos[t] += 1;
-        res[t].push(r);
-        go(p, &m2, pos, res, out);
-        res[t].pop();
-        pos[t] -= 1;
+        for (r, m2) in m.apply(t, p.threads[t][pos[t]]) {
+          pos[t] += 1;
+          res[t].push(r);
+          go(p, &m2, pos, res, out);
+          res[t].pop();
+          pos[t] -= 1;
+        }
       }
     }
     if !any {
-      let f = Final { keyids: m.map.clone(), keyid_count: m.map.len(), live: m.live.clone(), key_count: m.live.len() };
-      out.insert((res.clone(), f));
+      out.insert((res.clone(), m.fin()));
     }
   }
-  let m = SeqModel {
-    map: p.pre_keyids.iter().copied().collect(),
-    live: (0..p.pre_keys).map(|i| (255u8, i)).collect(),
-    generated: vec![0; p.threads.len()],
-  };
   let mut out = BTreeSet::new();
-  go(p, &m, &mut vec![0; p.threads.len()], &mut vec![vec![]; p.threads.len()], &mut out);
+  go(p, &SeqModel::initial(p), &mut vec![0; p.threads.len()], &mut vec![vec![]; p.threads.len()], &mut out);
   out
+}
+
+/// Position of a call's invocation and of its return in the execution's event log.
+type Span = (usize, usize);
+
+/// Linearizability proper: is there a sequential order of all calls that (1) keeps every thread's program order,
+/// (2) never places a call before one that had returned before it was invoked, (3) gives every call the result it
+/// had and (4) ends in the observed final content?
+fn linearizable(p: &Program, outcome: &Outcome, spans: &[Vec<Span>]) -> bool {
+  fn go(p: &Program, outcome: &Outcome, spans: &[Vec<Span>], m: &SeqModel, pos: &mut Vec<usize>) -> bool {
+    let mut any = false;
+    for t in 0..p.threads.len() {
+      let i = pos[t];
+      if i >= p.threads[t].len() {
+        continue;
+      }
+      any = true;
+      // a pending call of another thread that returned before this one was invoked must come first
+      // (returns are ordered along a thread, so its earliest pending call decides)
+      let blocked = (0..p.threads.len()).any(|u| u != t && pos[u] < p.threads[u].len() && spans[u][pos[u]].1 < spans[t][i].0);
+      if blocked {
+        continue;
+      }
+      for (r, m2) in m.apply(t, p.threads[t][i]) {
+        if r == outcome.0[t][i] {
+          pos[t] += 1;
+          let found = go(p, outcome, spans, &m2, pos);
+          pos[t] -= 1;
+          if found {
+            return true;
+          }
+        }
+      }
+    }
+    !any && m.fin() == outcome.1
+  }
+  go(p, outcome, spans, &SeqModel::initial(p), &mut vec![0; p.threads.len()])
 }
 
 #[derive(Default)]
@@ -289,8 +353,9 @@ fn thread_body(p: &Program, allowed: &BTreeSet<Outcome>, acc: &Mutex<ThreadAcc>)
     pre.push((o.key_id, o.jwk));
   }
   let pre = Arc::new(pre);
-  // completion log: (thread, op index) in the order the calls returned
-  let log: Arc<Mutex<Vec<(u8, u8)>>> = Arc::new(Mutex::new(Vec::new()));
+  // event log: (thread, op index, false = invoked / true = returned), in execution order. Under shuttle all
+  // threads of an execution run interleaved on one OS thread, so the order of the log IS the real-time order.
+  let log: Arc<Mutex<Vec<(u8, u8, bool)>>> = Arc::new(Mutex::new(Vec::new()));
   IN_SHUTTLE.with(|f| f.set(true));
   let flag = FlagGuard;
   let handles: Vec<_> = p
@@ -302,6 +367,8 @@ fn thread_body(p: &Program, allowed: &BTreeSet<Outcome>, acc: &Mutex<ThreadAcc>)
       let (kstore, istore, pre, log) = (kstore.clone(), istore.clone(), pre.clone(), log.clone());
       shuttle::thread::spawn(move || {
         let mut own: Vec<(KeyId, Jwk)> = Vec::new();
+        // which of the own keys were inserted (not generated)
+        let mut inserted: Vec<bool> = Vec::new();
         let mut res: Vec<TRes> = Vec::new();
         for (i, op) in ops.iter().enumerate() {
           let key = |r: &KRef, own: &Vec<(KeyId, Jwk)>| -> Option<(KeyId, Jwk)> {
@@ -310,6 +377,7 @@ fn thread_body(p: &Program, allowed: &BTreeSet<Outcome>, acc: &Mutex<ThreadAcc>)
               KRef::Own(j) => own.get(*j as usize).cloned(),
             }
           };
+          log.lock().unwrap().push((t as u8, i as u8, false));
           let r = match op {
             TOp::IIns(d, k) => match sblock_on(istore.insert_key_id(digest(*d), key_id(*k))) {
               Ok(()) => TRes::Ok,
@@ -326,10 +394,22 @@ fn thread_body(p: &Program, allowed: &BTreeSet<Outcome>, acc: &Mutex<ThreadAcc>)
             TOp::KGen => match sblock_on(kstore.generate(JwkMemStore::ED25519_KEY_TYPE, JwsAlgorithm::EdDSA)) {
               Ok(o) => {
                 own.push((o.key_id, o.jwk));
+                inserted.push(false);
                 TRes::Ok
               }
               Err(_) => TRes::Err,
             },
+            TOp::KIns(seed) => {
+              let k = vx::fx::EdKey::new(*seed);
+              match sblock_on(kstore.insert(k.private_with_alg("EdDSA"))) {
+                Ok(id) => {
+                  own.push((id, k.public_with_alg("EdDSA")));
+                  inserted.push(true);
+                  TRes::Ok
+                }
+                Err(_) => TRes::Err,
+              }
+            }
             TOp::KDel(r) => match key(r, &own) {
               None => TRes::Skipped,
               Some((id, _)) => match sblock_on(kstore.delete(&id)) {
@@ -358,20 +438,20 @@ fn thread_body(p: &Program, allowed: &BTreeSet<Outcome>, acc: &Mutex<ThreadAcc>)
               },
             },
           };
-          log.lock().unwrap().push((t as u8, i as u8));
+          log.lock().unwrap().push((t as u8, i as u8, true));
           res.push(r);
         }
-        (res, own)
+        (res, own, inserted)
       })
     })
     .collect();
   let mut results: Vec<Vec<TRes>> = Vec::new();
-  let mut named: Vec<(KName, KeyId)> = pre.iter().enumerate().map(|(i, (id, _))| ((255u8, i as u8), id.clone())).collect();
+  let mut named: Vec<(KName, KeyId, bool)> = pre.iter().enumerate().map(|(i, (id, _))| ((255u8, i as u8), id.clone(), false)).collect();
   for (t, h) in handles.into_iter().enumerate() {
-    let (res, own) = h.join().expect("thread body does not panic");
+    let (res, own, inserted) = h.join().expect("thread body does not panic");
     results.push(res);
     for (j, (id, _)) in own.into_iter().enumerate() {
-      named.push(((t as u8, j as u8), id));
+      named.push(((t as u8, j as u8), id, inserted[j]));
     }
   }
   drop(flag);
@@ -384,16 +464,34 @@ fn thread_body(p: &Program, allowed: &BTreeSet<Outcome>, acc: &Mutex<ThreadAcc>)
   }
   let mut live = BTreeSet::new();
   let mut ids = BTreeSet::new();
-  let mut fresh = true;
-  for (n, id) in &named {
-    fresh &= ids.insert(id.as_str().to_string());
+  // (a generated key's id was issued before, an inserted key's id was issued before)
+  let mut stale = (false, false);
+  for (n, id, inserted) in &named {
+    if !ids.insert(id.as_str().to_string()) {
+      if *inserted {
+        stale.1 = true;
+      } else {
+        stale.0 = true;
+      }
+    }
     if matches!(sblock_on(kstore.exists(id)), Ok(true)) {
       live.insert(*n);
     }
   }
   let fin = Final { keyids, keyid_count: sblock_on(istore.count()), live, key_count: sblock_on(kstore.count()) };
   let outcome: Outcome = (results, fin);
-  let order = log.lock().unwrap().clone();
+  let events = log.lock().unwrap().clone();
+  // (invoked at, returned at) of every call
+  let mut spans: Vec<Vec<Span>> = p.threads.iter().map(|ops| vec![(usize::MAX, usize::MAX); ops.len()]).collect();
+  for (at, (t, i, returned)) in events.iter().enumerate() {
+    let s = &mut spans[*t as usize][*i as usize];
+    if *returned {
+      s.1 = at;
+    } else {
+      s.0 = at;
+    }
+  }
+  let order: Vec<(u8, u8)> = events.iter().filter(|e| e.2).map(|e| (e.0, e.1)).collect();
   let mut a = acc.lock().unwrap();
   a.executions += 1;
   a.calls += order.len() as u64;
@@ -402,9 +500,19 @@ fn thread_body(p: &Program, allowed: &BTreeSet<Outcome>, acc: &Mutex<ThreadAcc>)
     let e = a.violations.entry(key).or_insert((what, 0));
     e.1 += 1;
   };
-  if !fresh {
-    report("JwkStorage::generate|threads|key-id-not-fresh".into(), format!("two generated keys share an id; completion order {order:?}"));
+  if stale.0 {
+    report("JwkStorage::generate|threads|key-id-not-fresh".into(), format!("two keys created by the program share an id; calls returned in the order (thread, op) {order:?}"));
   }
+  if stale.1 {
+    report("JwkStorage::insert|threads|key-id-not-fresh".into(), format!("two keys created by the program share an id; calls returned in the order (thread, op) {order:?}"));
+  }
+  let uses_k = p.threads.iter().flatten().any(|o| matches!(o, TOp::KGen | TOp::KIns(_) | TOp::KDel(_) | TOp::KEx(_) | TOp::KSign(_)));
+  let uses_i = p.threads.iter().flatten().any(|o| matches!(o, TOp::IIns(..) | TOp::IGet(_) | TOp::IDel(_)));
+  let which = match (uses_k, uses_i) {
+    (true, true) => "JwkStorage+KeyIdStorage",
+    (true, false) => "JwkStorage",
+    _ => "KeyIdStorage",
+  };
   if !allowed.contains(&outcome) {
     // classify: the statement singles out racing inserts of one digest
     let mut key = None;
@@ -432,22 +540,30 @@ fn thread_body(p: &Program, allowed: &BTreeSet<Outcome>, acc: &Mutex<ThreadAcc>)
         continue;
       }
       if winners.len() > 1 {
-        key = Some("KeyIdStorage::insert_key_id|threads|second-insert-for-a-digest-succeeded");
+        key = Some("KeyIdStorage::insert_key_id|threads|second-insert-for-a-digest-succeeded".to_string());
       } else if winners.is_empty() {
-        key = Some("KeyIdStorage::insert_key_id|threads|no-insert-for-a-digest-succeeded");
+        key = Some("KeyIdStorage::insert_key_id|threads|no-insert-for-a-digest-succeeded".to_string());
       } else if outcome.1.keyids.get(&d) != Some(&winners[0]) {
-        key = Some("KeyIdStorage::insert_key_id|threads|surviving-mapping-is-not-the-winners");
+        key = Some("KeyIdStorage::insert_key_id|threads|surviving-mapping-is-not-the-winners".to_string());
       }
       if key.is_some() {
         break;
       }
     }
-    let uses_k = p.threads.iter().flatten().any(|o| matches!(o, TOp::KGen | TOp::KDel(_) | TOp::KEx(_) | TOp::KSign(_)));
-    let key = key.unwrap_or(if uses_k { "JwkStorage|threads|outcome-not-linearizable" } else { "KeyIdStorage|threads|outcome-not-linearizable" });
+    // programs on one store keep the store's name alone in the key
+    let key = key.unwrap_or(format!("{}|threads|outcome-not-linearizable", if uses_k { "JwkStorage" } else { "KeyIdStorage" }));
     report(
-      key.to_string(),
+      key,
       format!(
         "program {:?}: results {:?}, final {:?} equal no sequential order of the calls; calls returned in the order (thread, op) {order:?}",
+        p.name, outcome.0, outcome.1
+      ),
+    );
+  } else if !linearizable(p, &outcome, &spans) {
+    report(
+      format!("{which}|threads|outcome-ignores-a-call-that-had-returned"),
+      format!(
+        "program {:?}: results {:?}, final {:?} are those of a sequential order of the calls, but only of orders that place a call before one that had returned before it was invoked; events (thread, op, returned) {events:?}",
         p.name, outcome.0, outcome.1
       ),
     );
@@ -459,9 +575,12 @@ struct ThreadRun {
   acc: ThreadAcc,
   panicked: Option<vx::Panicked>,
   linearizations: usize,
+  /// informational only (evidence detail); nothing is decided on it
+  wall_s: f64,
 }
 fn run_program(p: &Program) -> ThreadRun {
   ensure_hook();
+  let t0 = std::time::Instant::now();
   let allowed = Arc::new(linearizations(p));
   let nlin = allowed.len();
   let acc = Arc::new(Mutex::new(ThreadAcc::default()));
@@ -469,13 +588,18 @@ fn run_program(p: &Program) -> ThreadRun {
   let cap = p.max_schedules;
   let r = guard(move || {
     let sched = shuttle::scheduler::DfsScheduler::new(cap, false);
-    shuttle::Runner::new(sched, shuttle::Config::new()).run(move || thread_body(&p2, &allowed, &acc2))
+    // shuttle's default of 60 KiB of stack per thread is close to what key generation + signing + JSON need;
+    // no wall-clock limit (max_time stays None): the DFS ends when the schedules are exhausted or at `cap`
+    let mut config = shuttle::Config::new();
+    config.stack_size = 1 << 20;
+    shuttle::Runner::new(sched, config).run(move || thread_body(&p2, &allowed, &acc2))
   });
   IN_SHUTTLE.with(|f| f.set(false));
   let acc = std::mem::take(&mut *acc.lock().unwrap());
+  let wall_s = (t0.elapsed().as_secs_f64() * 10.0).round() / 10.0;
   match r {
-    Ok(n) => ThreadRun { schedules: n, acc, panicked: None, linearizations: nlin },
-    Err(pn) => ThreadRun { schedules: 0, acc, panicked: Some(pn), linearizations: nlin },
+    Ok(n) => ThreadRun { schedules: n, acc, panicked: None, linearizations: nlin, wall_s },
+    Err(pn) => ThreadRun { schedules: 0, acc, panicked: Some(pn), linearizations: nlin, wall_s },
   }
 }
 
@@ -530,8 +654,67 @@ fn thread_programs(ctx: &Ctx) -> Vec<Program> {
     vec![vec![KGen, IIns(0, 0)], vec![KGen, IIns(0, 1)]],
     None,
   ));
+  // ---- 3 threads mixing both stores (the call patterns of generate_method / purge_method / sign racing each other)
+  v.push(mk(
+    "generate+insert_key_id vs get_key_id vs delete of a shared key",
+    vec![],
+    1,
+    vec![vec![KGen, IIns(0, 0)], vec![IGet(0)], vec![KDel(KRef::Pre(0))]],
+    None,
+  ));
+  v.push(mk(
+    "insert_key_id+sign vs delete_key_id+delete (purge) vs get_key_id+exists",
+    vec![(0, 2)],
+    1,
+    vec![vec![IIns(0, 0), KSign(KRef::Pre(0))], vec![IDel(0), KDel(KRef::Pre(0))], vec![IGet(0), KEx(KRef::Pre(0))]],
+    None,
+  ));
+  v.push(mk(
+    "generate+insert_key_id for one digest, twice, vs get_key_id+delete_key_id",
+    vec![],
+    0,
+    vec![vec![KGen, IIns(0, 0)], vec![KGen, IIns(0, 1)], vec![IGet(0), IDel(0)]],
+    None,
+  ));
+  v.push(mk(
+    "insert_key_id of digests that differ in one byte vs get_key_id of each",
+    vec![],
+    0,
+    vec![vec![IIns(0, 0), IGet(1)], vec![IIns(1, 1), IGet(2)], vec![IIns(2, 2), IGet(0)]],
+    None,
+  ));
+  // ---- inserts of JWKs from several threads (equal and different key material)
+  v.push(mk("two inserts of the same JWK + generate", vec![], 0, vec![vec![KIns(1)], vec![KIns(1)], vec![KGen]], None));
+  v.push(mk(
+    "insert, sign own, delete own: same JWK from two threads",
+    vec![],
+    0,
+    vec![vec![KIns(1), KSign(KRef::Own(0)), KDel(KRef::Own(0))], vec![KIns(1), KSign(KRef::Own(0)), KDel(KRef::Own(0))]],
+    None,
+  ));
+  v.push(mk(
+    "inserts of two JWKs vs delete / sign / exists of a shared key vs generate",
+    vec![],
+    1,
+    vec![vec![KIns(1), KDel(KRef::Pre(0))], vec![KIns(2), KSign(KRef::Pre(0))], vec![KEx(KRef::Pre(0)), KGen]],
+    None,
+  ));
   if ctx.thorough() {
     let cap = Some(2_000_000);
+    v.push(mk(
+      "generate+insert_key_id+sign own, twice for one digest, vs get_key_id+delete_key_id",
+      vec![],
+      0,
+      vec![vec![KGen, IIns(0, 0), KSign(KRef::Own(0))], vec![KGen, IIns(0, 1), KSign(KRef::Own(0))], vec![IGet(0), IDel(0)]],
+      cap,
+    ));
+    v.push(mk(
+      "insert JWK+insert_key_id vs insert same JWK+insert_key_id for the same digest vs delete_key_id+get_key_id",
+      vec![],
+      0,
+      vec![vec![KIns(1), IIns(0, 0)], vec![KIns(1), IIns(0, 1)], vec![IDel(0), IGet(0)]],
+      cap,
+    ));
     v.push(mk("4 inserts of one digest", vec![], 0, vec![vec![IIns(0, 0)], vec![IIns(0, 1)], vec![IIns(0, 2)], vec![IIns(0, 0)]], cap));
     v.push(mk("3 inserts of one digest + get", vec![], 0, vec![vec![IIns(0, 0)], vec![IIns(0, 1)], vec![IIns(0, 2)], vec![IGet(0)]], cap));
     v.push(mk("3 x (insert, get)", vec![], 0, vec![vec![IIns(0, 0), IGet(0)], vec![IIns(0, 1), IGet(0)], vec![IIns(0, 2), IGet(0)]], cap));
@@ -555,11 +738,17 @@ fn thread_programs(ctx: &Ctx) -> Vec<Program> {
 
 // ================================================================================================ eval / generate
 
+
 fn eval(ctx: &Ctx, case: &Case) {
   ctx.eval1();
   match case {
     Case::Jwk { cap, hist } => seq::replay_jwk::<Mem>(*cap, hist, seq::Mode::default()).drain_into(ctx, "jwk-replay"),
     Case::KeyId { hist } => seq::replay_keyid::<Mem>(hist, seq::Mode::default()).drain_into(ctx, "keyid-replay"),
+    Case::Digest { a, b } => {
+      let col = vx::sr::Collector::new();
+      seq::eval_digest_pair::<Mem>(&col, *a, *b);
+      col.drain_into(ctx, "digest-replay");
+    }
     Case::Threads(p) => {
       let r = run_program(p);
       report_thread_run(ctx, p, &r);
@@ -568,7 +757,7 @@ fn eval(ctx: &Ctx, case: &Case) {
 }
 
 fn generate(ctx: &Ctx) {
-  ctx.rule("(a1) stateright BFS over JwkMemStore op histories (state = history, store rebuilt by replay; fingerprint = model slots + complete observation vector: exists of every issued id and a never-issued id, sign by every id verified under every issued public JWK, count); slots capped so the search closes; second run depth-bounded with the depth in the fingerprint. (a2) the same for KeyIdMemstore over digests x key ids, to closure. (b) shuttle DFS over all schedules of small thread programs on both stores, brute-force linearizability oracle. distinct_nontrivial = unique states of (a1),(a2) + distinct (program, observed outcome) pairs of (b)");
+  ctx.rule("(a1) stateright BFS over JwkMemStore op histories (state = history, store rebuilt by replay; fingerprint = model slots + complete observation vector: exists of every issued id and a never-issued id, sign by every id verified under every issued public JWK, count); slots capped so the search closes; second run depth-bounded with the depth in the fingerprint. a further closure run (<= 3 issued ids; in the quick tier the only closure run) offers, on top of all basic operations, the extended op alphabet (same key material under other metadata, unregistered alg, the public part of a generated key with a foreign private part, own public key under another / no kid, delete/exists/sign of never-issued ids derived from the newest issued id: its proper prefix, its extension, one letter's case flipped, the empty id). (a2) the same for KeyIdMemstore over digests (three of which differ pairwise in one byte) x key ids (proper prefixes of each other), to closure. (a3) full product of pairs of verification methods (DIDs x fragments x key material) through MethodDigest::new / pack / unpack and the key-id store. (b) shuttle DFS over all schedules of small thread programs on both stores, brute-force linearizability oracle (program order + real-time order of calls that did not overlap). distinct_nontrivial = unique states of (a1),(a2) + pairs of different methods of (a3) + distinct (program, observed outcome) pairs of (b)");
   ctx.assume("tokio::sync::RwLock is a lock; scheduling points exist exactly where the verif-hooks hook is called (before every lock acquisition of the in-memory stores)");
   ctx.assume("(a1) merges two histories iff model state and the complete observation vector of the rebuilt real store coincide; a difference invisible to every observation at every later step is not excluded (bounded-observation caveat)");
   ctx.assume("EdDSAJwsVerifier and the harness's fixed-seed Ed25519 keys (iota-crypto) are the trusted verification base; the RFC 7638 thumbprint is recomputed by the harness with sha2");
@@ -577,11 +766,15 @@ fn generate(ctx: &Ctx) {
   // ---------------------------------------------------------------- (a1)
   let cap = ctx.by_tier(3u8, 4u8);
   let diverged = Arc::new(AtomicBool::new(false));
-  let st = vx::sr::run(ctx, &format!("(a1) JwkMemStore histories, <= {cap} issued ids, to closure"), None, |col| {
-    KModel::<Mem>::new(cap, false, col, diverged.clone())
-  });
-  for i in 0..st.unique {
-    ctx.distinct(&(1u8, i));
+  // quick: the closure run with the extended alphabet below has the same cap and offers every operation of the
+  // basic alphabet too, so the basic run would repeat a part of it
+  if ctx.thorough() {
+    let st = vx::sr::run(ctx, &format!("(a1) JwkMemStore histories, <= {cap} issued ids, to closure"), None, |col| {
+      KModel::<Mem>::new(cap, false, col, diverged.clone())
+    });
+    for i in 0..st.unique {
+      ctx.distinct(&(1u8, i));
+    }
   }
   let depth = ctx.by_tier(5usize, 7usize);
   let st = vx::sr::run(ctx, &format!("(a1) JwkMemStore histories, <= 3 issued ids, depth {depth} (depth in fingerprint)"), Some(depth), |col| {
@@ -590,19 +783,74 @@ fn generate(ctx: &Ctx) {
   for i in 0..st.unique {
     ctx.distinct(&(2u8, i));
   }
+  // the extended op alphabet (known key material under other metadata, unregistered alg, the public part of a
+  // generated key, own public key under another / no kid, never-issued ids derived from issued ones)
+  let cap_x = 3u8;
+  let st = vx::sr::run(ctx, &format!("(a1) JwkMemStore histories, extended op alphabet, <= {cap_x} issued ids, to closure"), None, |col| {
+    KModel::<Mem>::new(cap_x, false, col, diverged.clone()).extended(true)
+  });
+  for i in 0..st.unique {
+    ctx.distinct(&(5u8, i));
+  }
   ctx.require(!diverged.load(Ordering::Relaxed), "(a1) replaying a recorded history produced a different number of issued key ids");
   ctx.bound("jwk_store_issued_ids_cap", cap);
+  ctx.bound("jwk_store_issued_ids_cap_extended_alphabet", cap_x);
   ctx.bound("jwk_store_depth_bounded_run", depth);
 
   // ---------------------------------------------------------------- (a2)
-  let (nd, nk) = ctx.by_tier((2u8, 2u8), (3u8, 3u8));
+  let (nd, nk) = ctx.by_tier((3u8, 2u8), (4u8, 3u8));
   let st = vx::sr::run(ctx, &format!("(a2) KeyIdMemstore histories, {nd} digests x {nk} key ids, to closure"), None, |col| IModel::<Mem>::new(nd, nk, col));
   for i in 0..st.unique {
     ctx.distinct(&(3u8, i));
   }
   ctx.bound("key_id_store_universe", json!({"digests": nd, "key_ids": nk}));
 
+  // ---------------------------------------------------------------- (a3)
+  {
+    let specs = seq::mspecs();
+    let pairs: Vec<(MSpec, MSpec)> = specs.iter().flat_map(|a| specs.iter().map(move |b| (*a, *b))).collect();
+    let col = vx::sr::Collector::new();
+    let digests: Vec<(Option<Vec<u8>>, Option<Vec<u8>>)> = pairs.par_iter().map(|(a, b)| seq::eval_digest_pair::<Mem>(&col, *a, *b)).collect();
+    let distinct_digests: BTreeSet<Vec<u8>> = digests.iter().filter_map(|d| d.0.clone()).collect();
+    for (i, (a, b)) in pairs.iter().enumerate() {
+      if a != b {
+        ctx.distinct(&(6u8, i));
+      }
+    }
+    ctx.sample("(a3) method digests", &Case::Digest { a: pairs[1].0, b: pairs[1].1 });
+    col.drain_into(ctx, "(a3) method digests");
+    ctx.add_states(pairs.len() as u64);
+    ctx.add_transitions(pairs.len() as u64 * 4);
+    ctx.add_traces(pairs.len() as u64);
+    ctx.add_evals(pairs.len() as u64);
+    ctx.part(
+      "(a3) MethodDigest over all pairs of methods",
+      json!({"engine": "full product", "methods": specs.len(), "pairs": pairs.len(), "distinct_digests": distinct_digests.len(),
+        "dids": seq::M_DIDS, "fragments": seq::M_FRAGS, "key_material(representation, key)": seq::M_KEYS.iter().map(|k| format!("{} of key {}", k.0, k.1)).collect::<Vec<_>>()}),
+    );
+    ctx.bound("method_digest_alphabet", json!({"dids": seq::M_DIDS.len(), "fragments": seq::M_FRAGS.len(), "key_material": seq::M_KEYS.len()}));
+  }
+
   // ---------------------------------------------------------------- (b)
+  // the oracle of (b) on hand-made executions: it must tell a stale answer from a permitted one
+  {
+    let p = Program { name: "oracle self-test".into(), pre_keyids: vec![], pre_keys: 0, threads: vec![vec![TOp::IIns(0, 0)], vec![TOp::IGet(0)]], max_schedules: None };
+    let fin = Final { keyids: [(0u8, 0u8)].into_iter().collect(), keyid_count: 1, live: BTreeSet::new(), key_count: 0 };
+    let stale: Outcome = (vec![vec![TRes::Ok], vec![TRes::Err]], fin.clone());
+    let seen: Outcome = (vec![vec![TRes::Ok], vec![TRes::Val(0)]], fin.clone());
+    let wrong: Outcome = (vec![vec![TRes::Ok], vec![TRes::Val(1)]], fin);
+    let allowed = linearizations(&p);
+    // get_key_id invoked after insert_key_id had returned / while it was running
+    let (after, during) = (vec![vec![(0, 1)], vec![(2, 3)]], vec![vec![(0, 3)], vec![(1, 2)]]);
+    ctx.require(
+      allowed.contains(&stale) && allowed.contains(&seen) && !allowed.contains(&wrong) && allowed.len() == 2,
+      "(b) oracle self-test: the set of sequential outcomes of {insert_key_id} || {get_key_id} is not {found, not found}",
+    );
+    ctx.require(
+      !linearizable(&p, &stale, &after) && linearizable(&p, &stale, &during) && linearizable(&p, &seen, &after) && linearizable(&p, &seen, &during) && !linearizable(&p, &wrong, &during),
+      "(b) oracle self-test: the linearizability oracle misjudges a hand-made execution",
+    );
+  }
   let programs = thread_programs(ctx);
   let runs: Vec<(Program, ThreadRun)> = programs.par_iter().map(|p| (p.clone(), run_program(p))).collect();
   let mut table = serde_json::Map::new();
@@ -626,7 +874,7 @@ fn generate(ctx: &Ctx) {
     table.insert(
       p.name.clone(),
       json!({"threads": p.threads.len(), "calls": p.threads.iter().map(|t| t.len()).sum::<usize>(), "schedules": r.schedules, "all_schedules": !capped,
-        "distinct_observed_outcomes": r.acc.outcomes.len(), "sequential_outcomes_allowed": r.linearizations}),
+        "distinct_observed_outcomes": r.acc.outcomes.len(), "sequential_outcomes_allowed": r.linearizations, "wall_s": r.wall_s}),
     );
   }
   ctx.part("(b) shuttle DFS, racing threads on KeyIdMemstore / JwkMemStore", json!({"engine": "E3 shuttle 0.9 DfsScheduler", "programs": runs.len(), "schedules": total, "detail": table}));
